@@ -22,11 +22,16 @@ Definition sec_apply (x : gang) (a : sec) : gang :=
   | SDeletePod p => g_delete_pod p x
   end.
 
-(* the flag records a violation of the framework protocol: addAssumedPod (Permit) for a pod
-   that is in BoundChildren *)
+(* the flag records a violation of the framework protocol: addAssumedPod (Permit) for a pod that
+   is in BoundChildren, addAssumedPod / addBoundPod (PostBind) for a pod that is not a child *)
+Definition sec_viol (x : gang) (a : sec) : bool :=
+  match a with
+  | SAddAssumed p => memZ p (g_bound x) || negb (memZ p (g_children x))
+  | SAddBound p => negb (memZ p (g_children x))
+  | _ => false
+  end.
 Definition sec_step (st : gang * bool) (a : sec) : gang * bool :=
-  (sec_apply (fst st) a,
-   snd st || match a with SAddAssumed p => memZ p (g_bound (fst st)) | _ => false end).
+  (sec_apply (fst st) a, snd st || sec_viol (fst st) a).
 
 Definition sec_inv (st : gang * bool) : Prop := snd st = false -> gwpart (fst st).
 
@@ -34,11 +39,12 @@ Lemma sec_step_inv st a : sec_inv st -> sec_inv (sec_step st a).
 Proof.
   destruct st as [x t]. unfold sec_inv, sec_step. cbn [fst snd]. intros H Ht.
   apply orb_false_iff in Ht. destruct Ht as [Ht Hg]. specialize (H Ht).
-  destruct a; cbn [sec_apply].
+  destruct a; cbn [sec_apply sec_viol] in *.
   - apply gwpart_set_child; exact H.
-  - apply gwpart_add_assumed; [exact H | apply memZ_nIn; exact Hg].
+  - apply orb_false_iff in Hg. destruct Hg as [Hb Hc]. apply negb_false_iff in Hc.
+    apply gwpart_add_assumed; [exact H | apply memZ_nIn; exact Hb | apply memZ_In; exact Hc].
   - apply gwpart_del_assumed; exact H.
-  - apply gwpart_add_bound; exact H.
+  - apply negb_false_iff in Hg. apply gwpart_add_bound; [exact H | apply memZ_In; exact Hg].
   - apply gwpart_delete_pod; exact H.
 Qed.
 
@@ -243,6 +249,17 @@ Example partition_unguarded_pending_and_bound :
   | None => false
   end = true.
 Proof. vm_compute. reflexivity. Qed.
+
+(* a delete event that overtakes PostBind (outside the guard): the deleted pod stays in bound *)
+Definition ex2_hdr : hdr := mkHdr 1 [(1, false); (1, false)] [mkCfg 1 0 0 [1]].
+Example postbind_after_delete :
+  let ops := [PodAdd 0 false; PodAdd 1 false; Permit 0; PodDelete 0] in
+  let s := exec ex2_hdr init_state ops in
+  conformant ex2_hdr init_state ops
+  /\ permit_ok ex2_hdr s (PostBind 0) = false
+  /\ all_part_okb (view s) = true
+  /\ all_part_okb (view (fst (step ex2_hdr s (PostBind 0)))) = false.
+Proof. vm_compute. repeat split. Qed.
 
 (* non-vacuity: a conformant history in which a whole group of two gangs is released at once *)
 Example release_example :
